@@ -849,21 +849,29 @@ def _archives(tier, rng):
             yield [(names[i], contents[c], 1000 + i, 10 * i, 7 + i, b"100644") for i, c in enumerate(combo)]
 
 
+class _NamedBytesIO(io.BytesIO):
+    name = "/nonexistent/verif-c06-not-this-file.ar"
+
+
 def bounded_arfile(ctx):
     import random
     from debian import arfile
     rng = random.Random(ctx.seed)
+    previous = None
     evals = 0
     nontrivial = set()
     samples = []
     import tempfile
     for members in _archives(ctx.tier, rng):
         raw = _serialize(members)
-        for mode in ("fileobj", "filename"):
+        for mode in ("fileobj", "fileobj with a misleading .name", "filename"):
             path = None
             try:
                 if mode == "fileobj":
                     af = arfile.ArFile(fileobj=io.BytesIO(raw))
+                elif mode.startswith("fileobj"):
+                    # the archive IS the bytes of the given file object, whatever attributes that object carries
+                    af = arfile.ArFile(fileobj=_NamedBytesIO(raw))
                 else:
                     fd, path = tempfile.mkstemp(prefix="verif-c06-", dir="/dev/shm" if os.path.isdir("/dev/shm") else None)
                     os.write(fd, raw)
@@ -883,6 +891,29 @@ def bounded_arfile(ctx):
                         last = max(i for i, x in enumerate(exp_names) if x == nm)
                         if af.getmember(nm) is not got[last]:
                             problems.append("getmember(%r) is not the last member of that name" % nm)
+                    for nm in ("m1", "m2", "absent"):
+                        if nm not in exp_names:
+                            try:
+                                af.getmember(nm)
+                                problems.append("getmember(%r) on an archive without that name did not raise KeyError" % nm)
+                            except KeyError:
+                                pass
+                    # an archive opened earlier in the same process is not affected by this one
+                    if previous is not None:
+                        paf, pnames, pgot = previous
+                        for nm in set(pnames):
+                            last = max(i for i, x in enumerate(pnames) if x == nm)
+                            if paf.getmember(nm) is not pgot[last]:
+                                problems.append("after opening another archive, getmember(%r) of the earlier archive changed" % nm)
+                        for nm in ("m1", "m2"):
+                            if nm not in pnames:
+                                try:
+                                    paf.getmember(nm)
+                                    problems.append("after opening another archive, the earlier archive knows the foreign name %r" % nm)
+                                except KeyError:
+                                    pass
+                    if mode == "fileobj":
+                        previous = (af, exp_names, got)
                     # interleaved operations across members against io.BytesIO oracles
                     oracles = [io.BytesIO(m[1]) for m in members]
                     ops = []
